@@ -748,6 +748,127 @@ theorem C09_target_over_branch (f : Obj) (F Rt P D : Tree) (body' : List (String
   simp only [List.dropLast_append_of_ne_nil, List.dropLast_singleton, List.append_nil, ne_eq, List.cons_ne_self,
     not_false_eq_true, hcomp, Tree.info_mk]
 
+theorem areplace_same_value {β : Type} (k : String) (v : β) : ∀ (l : List (String × β)), alookup k l = some v → areplace k v l = l
+  | [], h => by simp [alookup] at h
+  | (k', x) :: r, h => by
+    simp only [alookup] at h
+    simp only [areplace]
+    split at h
+    · next e => cases h; simp [e]
+    · next hne => simp [hne, areplace_same_value k v r h]
+
+/-- the `_append_branch` step for a runtime child WITHOUT children that is in the file, in append-over mode, is just the
+    overwrite of that node -/
+theorem appendOne_nokids (dt : List String) (keys0 : List String) (pg X : Obj) (di : NodeInfo)
+    (hk : keys0.contains di.name = true) (h : appendOne dt true keys0 pg (.mk di []) = .ok X) :
+    overwriteSingleNode dt pg di = .ok X := by
+  rw [appendOne] at h
+  simp only [hk, Bool.not_true, Bool.false_eq_true, if_false, if_true, bind, Except.bind] at h
+  cases ho : overwriteSingleNode dt pg di with
+  | error e => simp [ho] at h
+  | ok g' =>
+    simp only [ho] at h
+    cases hl : alookup di.name g'.kids with
+    | none => simp [hl] at h
+    | some sub =>
+      simp only [hl, appendKids, pure, Except.pure, Except.ok.injEq] at h
+      rw [← h, areplace_same_value di.name sub g'.kids hl]
+      cases g' with
+      | group a k => rfl
+      | dataset a v => simp [Obj.kids, alookup] at hl
+
+/-- C09, targeted APPEND-OVER of a node present in both with `tree=False`: the node's own content and metadata are
+    replaced by the runtime node's, ALL its children in the file are kept (they are re-linked into the new group), and
+    nothing else in the tree changes -/
+theorem C09_target_over_single (f : Obj) (F Rt P D : Tree) (body' : List (String × Obj)) (q : List String)
+    (hF : F.rootedWF CT DT = true) (hR : Rt.rootedWF CT DT = true) (hname : Rt.name = F.name)
+    (hf : alookup F.name f.kids = some (encode F)) (hroot : (rootGroups f).contains F.name = true)
+    (hmdname : "metadatabundle" ∉ names F.kids)
+    (hmd : mdBody true F.info.body (mdEntries Rt.info) = .ok body')
+    (hP : (withBody F body').at q = some P) (hD : Rt.at (q ++ [D.name]) = some D)
+    (hin : (findKid D.name P.kids).isSome = true)
+    (hcompat : compatOne true P.info P.kids (akeys P.info.body ++ names P.kids ++ [D.name]) (.mk D.info []) = true) :
+    ∃ pk1, (Tree.mk P.info pk1).wf CT DT = true ∧
+      appendInto DT f Rt (q ++ [D.name]) true .no none
+        = .ok (f.setKids (areplace F.name (encode ((withBody F body').replaceAt q (.mk P.info pk1))) f.kids)) ∧
+      (∀ m, m ≠ D.name → findKid m pk1 = findKid m P.kids) ∧
+      (∀ p, cK pk1 D.name p = combine true (cK P.kids D.name p) (((Tree.mk D.info []).at p).map Tree.info)) := by
+  simp only [Tree.rootedWF, Bool.and_eq_true, beq_iff_eq] at hF hR
+  obtain ⟨hF1w, hrm⟩ := rootMd_encode true F Rt.info body' hF.1.1 hmdname hmd
+  obtain ⟨hPw, _⟩ := wf_at q (withBody F body') P hF1w hP
+  obtain ⟨hDw, hDd⟩ := wf_at (q ++ [D.name]) Rt D hR.1.1 hD
+  obtain ⟨S, hS⟩ := Option.isSome_iff_exists.mp hin
+  have hD0w : (Tree.mk D.info []).wf CT DT = true := by
+    simp only [Tree.wf, Bool.and_eq_true]; exact ⟨Tree.wf_info hDw, by simp [kidsWF]⟩
+  cases P with
+  | mk pi pk =>
+  simp only [Tree.info_mk, Tree.kids_mk] at hcompat hin hS
+  have hkeys : ([D.name] : List String).contains (Tree.mk D.info []).name = (findKid (Tree.mk D.info []).name pk).isSome := by
+    simp [Tree.name, hin] at hin ⊢
+  obtain ⟨pk1, hwf1, heq1, hframe1, _, hspec1⟩ := appendOne_spec (ct := CT) (dt := DT) true (.mk D.info []) pi pk [D.name]
+    (akeys pi.body ++ names pk ++ [D.name]) hPw hD0w (hDd (by cases q <;> simp)) hcompat
+    (fun m hm => by
+      simp only [List.mem_append]
+      cases hm with
+      | inl h => exact Or.inl (Or.inl h)
+      | inr h => exact Or.inl (Or.inr h)) hkeys
+  refine ⟨pk1, hwf1, ?_, hframe1, hspec1⟩
+  have hG := appendOne_nokids DT [D.name] (encode (.mk pi pk)) _ D.info (by simp [Tree.name]) heq1
+  have hzip := atPath_encode (ct := CT) (dt := DT) (fun pg => overwriteSingleNode DT pg D.info)
+    q (withBody F body') (.mk pi pk) (.mk pi pk1) hF1w hP hG rfl
+  have hS1 : (withBody F body').at (q ++ [D.name]) = some S := tree_at_append q _ _ _ S hP hS
+  have hval := validate_inside (ct := CT) (dt := DT) (q ++ [D.name]) (withBody F body') S hF1w hS1
+  have hne : (q ++ [D.name]).isEmpty = false := by cases q <;> rfl
+  simp only [atPath] at hzip
+  simp only [appendInto, appendCore, hname, hroot, hD, hf, hrm, hval, hne, bind, Except.bind, pure, Except.pure,
+    Bool.not_true, Bool.false_and, Bool.false_eq_true, if_false, overThenAppend, Bool.true_and, beq_self_eq_true,
+    Bool.or_true, if_true, List.getLast?_append, List.getLast?_singleton, Option.some_or, atPath,
+    bne_self_eq_false]
+  simp only [List.dropLast_append_of_ne_nil, List.dropLast_singleton, List.append_nil, ne_eq, List.cons_ne_self,
+    not_false_eq_true, hzip, Tree.info_mk]
+  rfl
+
+theorem encodeKids_append_list : ∀ (a b : List Tree), encodeKids (a ++ b) = encodeKids a ++ encodeKids b
+  | [], b => by simp [encodeKids]
+  | x :: xs, b => by simp [encodeKids, encodeKids_append_list xs b]
+
+/-- C09, targeted append of a runtime node that is NOT in the file with `tree=None` ("the branch below it"): the node
+    itself is skipped and its children, each with its whole branch, become new children of the file node at the parent
+    path -/
+theorem C09_target_new_below (over : Bool) (f : Obj) (F Rt P D : Tree) (body' : List (String × Obj))
+    (q : List String) (m : String)
+    (hF : F.rootedWF CT DT = true) (hR : Rt.rootedWF CT DT = true) (hname : Rt.name = F.name)
+    (hf : alookup F.name f.kids = some (encode F)) (hroot : (rootGroups f).contains F.name = true)
+    (hmdname : "metadatabundle" ∉ names F.kids)
+    (hmd : mdBody over F.info.body (mdEntries Rt.info) = .ok body')
+    (hP : (withBody F body').at q = some P) (hD : Rt.at (q ++ [m]) = some D)
+    (hnew : m ∉ names P.kids) (hbody : m ∉ akeys P.info.body)
+    (hfresh : ∀ k ∈ D.kids, k.name ∉ akeys P.info.body ++ names P.kids) :
+    appendInto DT f Rt (q ++ [m]) over .below none
+      = .ok (f.setKids (areplace F.name (encode ((withBody F body').replaceAt q (.mk P.info (P.kids ++ D.kids)))) f.kids)) := by
+  simp only [Tree.rootedWF, Bool.and_eq_true, beq_iff_eq] at hF hR
+  obtain ⟨hF1w, hrm⟩ := rootMd_encode over F Rt.info body' hF.1.1 hmdname hmd
+  obtain ⟨hDw, _⟩ := wf_at (q ++ [m]) Rt D hR.1.1 hD
+  have hval := validate_beyond (ct := CT) (dt := DT) q (withBody F body') P m hF1w hP (alookup_encode_none P m hbody hnew)
+  have hDk : kidsWF CT DT (akeys P.info.body ++ names P.kids) D.kids = true :=
+    kidsWF_retake' D.kids _ _ (Tree.wf_kids hDw) hfresh
+  have hwrite : writeTree (encode P) D = .ok (encode (.mk P.info (P.kids ++ D.kids))) := by
+    cases P with
+    | mk pi pk =>
+      simp only [Tree.info_mk, Tree.kids_mk] at hDk
+      simp only [writeTree, encode, Tree.info_mk, Tree.kids_mk]
+      rw [writeKids_ok (ct := CT) (dt := DT) D.kids (nodeAttrs pi) (pi.body ++ encodeKids pk) (akeys pi.body ++ names pk)
+        (fun n hn => by
+          have := alookup_isSome_mem_akeys n _ hn
+          rw [akeys_append, akeys_encodeKids] at this
+          exact this) hDk]
+      rw [encodeKids_append_list, List.append_assoc]
+  have hzip := atPath_encode (ct := CT) (dt := DT) (fun g => writeTree g D) q (withBody F body') P
+    (.mk P.info (P.kids ++ D.kids)) hF1w hP hwrite rfl
+  have hne : (q ++ [m]).isEmpty = false := by cases q <;> rfl
+  simp only [appendInto, appendCore, hname, hroot, hD, hf, hrm, hval, hne, bind, Except.bind, pure, Except.pure,
+    Bool.not_true, Bool.false_and, Bool.false_eq_true, if_false, hzip]
+
 /-- what "exactly there, and nothing else" means for all three targeted theorems: after replacing the subtree at `p`,
     the new subtree is what is read at `p` (and below), and the content of every node whose path does not pass through
     `p` is what it was -/
